@@ -283,6 +283,13 @@ def run_case(case, R):
                 else:
                     base = ()
                     given, maps = _given(spec, info.get("tree"))
+                if name == "assign_sub" and out.kind != "ok":
+                    # a rejected assignment (a map with a bad leaf / failing whole-config validation, or a non-map)
+                    # never changes which fields count as user-defined
+                    R.check(not changed, "defined-iff", "assign_sub:rejected", lambda: "a rejected assignment to sub-configuration %s changed the status of %s" % (".".join(base), sorted(changed)))
+                    after_snap = worlds.snapshot(cfg, cc)
+                    R.check(after_snap == snap_before, "defined-iff", "assign_sub:rejected-values", lambda: "a rejected assignment to sub-configuration %s changed values: %s" % (".".join(base), worlds.diff(snap_before, after_snap)))
+                    continue
                 allowed = set(given) | maps | {p for p in st_before if _under(p, maps)} | {p for p in st_after if _under(p, maps)}
                 R.check(changed <= allowed, "defined-iff", name + ":others",
                         lambda: "%s changed the status of fields it did not supply: %s" % (name, sorted(changed - allowed)))
